@@ -67,7 +67,7 @@ def _probed(behs, always_both=False):
 def _replay_and_validate(chk, behs, tag, symbolize=False):
     """Replay behaviours on the real server in PAR slices and validate each trace with TLC.
     Returns dict(cases, lines, ndiv, divs, ncrash, crashes, viol, traces, ...):
-      viol    = list of (case id, step number inside the execution, predicate)
+      viol    = list of (case id, step number inside the execution, predicate[whose address])
       crashes = list of (case id, steps completed before the crash)
       traces  = case id -> trace lines (Reset line first)"""
     n = len(behs)
@@ -116,7 +116,8 @@ def _replay_and_validate(chk, behs, tag, symbolize=False):
             elif cur is not None:
                 res["traces"][cur].append(o)
         for v in s["viol"]:
-            res["viol"].append((v["case"], v["line"] - reset_line[v["case"]], v["prop"]))
+            prop = v["prop"] + (f"[{v['who'] or 'nobody'}]" if v["prop"] in ("IdentityApproved", "RoutedStamped") else "")
+            res["viol"].append((v["case"], v["line"] - reset_line[v["case"]], prop))
     return res
 
 
